@@ -1,8 +1,9 @@
-SPECIFICATION SSpec
+SPECIFICATION SSpecMC
 CONSTANTS
   NP = 4
   MaxOps = 100000000
   Pace = TRUE
+  NVoters = 2
   KF_OrphanFirstMatchOnly = FALSE
   KF_StaleMarkers = FALSE
 INVARIANTS TypeOK TreeOK StoredOnce OrphansOK MarkersOK
